@@ -207,6 +207,10 @@ SHAPES = {
     "continue-in-nested-if-of-main-loop": "mon = SerialMonitor(9600)\nn = 0\nwhile True:\n    n = n + 1\n    if n > 1:\n        if n % 2 == 0:\n            mon.write('e')\n        elif n % 3 == 0:\n            continue\n    mon.write(n)\n    sleep(5)\n",
     "break-and-continue-in-elif-arm-of-nested-loop": "mon = SerialMonitor(9600)\nwhile True:\n    for i in range(5):\n        if i == 0:\n            mon.write('z')\n        elif i == 1:\n            continue\n        elif i == 3:\n            break\n        mon.write(i)\n    sleep(5)\n",
     "two-lcd-kinds-i2c-first": "l2 = LCD(i2c_addr=0x27)\nl1 = LCD(rs=22, en=23, d4=24, d5=25, d6=26, d7=27)\nl1.write(0, 0, 'a')\nl2.write(0, 0, 'b')\n",
+    "helper-local-name-reused-at-top-level": "mon = SerialMonitor(9600)\ndef add_up(n):\n    total = 0\n    for i in range(n):\n        total = total + i\n    return total\nr = add_up(4)\ntotal = r + 1\nmsg = 'x'\nmon.write(total)\nmon.write(msg)\n",
+    "helper-local-name-reused-in-second-helper": "mon = SerialMonitor(9600)\ndef first(n):\n    acc = n * 2\n    return acc\ndef second(n):\n    acc = n + 0.5\n    return acc\na = first(2)\nb = second(2)\nmon.write(a)\nmon.write(b)\n",
+    "helper-with-local-two-signatures": "mon = SerialMonitor(9600)\ndef tag(v):\n    label = v\n    return label\na = tag(7)\nb = tag('seven')\nmon.write(a)\nmon.write(b)\n",
+    "helper-parameter-name-reused-at-top-level": "mon = SerialMonitor(9600)\ndef show(msg):\n    mon.write(msg)\nshow('a')\nmsg = 'later'\nmon.write(msg)\n",
     "try-except": "mon = SerialMonitor(9600)\ntry:\n    x = 5\nexcept Exception:\n    x = 0\nmon.write(x)\n",
     "lists-and-len": "mon = SerialMonitor(9600)\nxs = [1, 2, 3]\nname = 'abc'\nwhile True:\n    xs.append(4)\n    mon.write(len(name))\n    mon.write(xs[0])\n    sleep(5)\n",
     "list-comprehension": "mon = SerialMonitor(9600)\nsq = [i * i for i in range(5)]\nmon.write(sq[2])\n",
@@ -280,6 +284,18 @@ def w3(out, tier):
     corpus = {f"shape/{k}": IMPORTS + v for k, v in SHAPES.items()}
     corpus.update({f"core/{k}": v for k, v in CORPUS.items()})
     corpus.update({f"device/{k}": v for k, v in scenarios().items()})
+    # every device command twice in one block (setup, main loop, helper): temporaries of the emitted code must be block-scoped
+    from progs import devdiff
+    decls = dict(devdiff.DECL, Buzzer="d = Buzzer(8)", LCD="d = LCD(rs=22, en=23, d4=24, d5=25, d6=26, d7=27)")
+    cmds = {k: sorted({c for g in v.values() for c in g}) for k, v in devdiff.COMMANDS.items()}
+    cmds["Buzzer"] = ["d.play_tone(440)", "d.play_tone(330, 100)", "d.stop()", "d.beep(500, on_ms=20, off_ms=10, times=2)", "d.sweep(200, 400, duration_ms=100, steps=4)", "d.melody('success')"]
+    cmds["LCD"] = sorted({c for g in devdiff.LCD_COMMANDS.values() for c in g})[:14] + ["d.backlight(True)", "d.brightness(60)", "d.display(False)", "d.glyph(0, [1, 2, 3, 4, 5, 6, 7, 8])"]
+    for kind, clist in cmds.items():
+        body = "\n".join(f"{c}\n{c}" for c in clist)
+        ind = lambda t, n=1: "\n".join("    " * n + l for l in t.split("\n"))
+        corpus[f"doubled/{kind}/setup"] = IMPORTS + decls[kind] + "\n" + body + "\n"
+        corpus[f"doubled/{kind}/main-loop"] = IMPORTS + decls[kind] + "\nwhile True:\n" + ind(body) + "\n    sleep(5)\n"
+        corpus[f"doubled/{kind}/helper"] = IMPORTS + decls[kind] + "\ndef act():\n" + ind(body) + "\nact()\n"
     if tier == "thorough":
         from progs.gen import programs
         for gs in (0, 1, 2):
